@@ -228,7 +228,104 @@ R.add('L20.2', l202, [dict(server=True), dict(server=False)], replay=replay_l202
       desc='register_function/unregister_function are inverses',
       expect=['a class can be registered again after unregister_function'])
 
-for _lid in ['L20.1', 'L20.2']:
+# ------------------------------------------------------------------ L20.3 a handler that raises
+EXC_TYPES = [KeyError, ValueError, AttributeError, TypeError, IndexError, LookupError, RuntimeError]
+
+
+def _raising_world(mod, sermod, server, exc_type, by_string):
+    cache = _raising_world.__dict__.setdefault('cache', {})
+    key = id(sermod)
+    if key not in cache:
+        class MsgR(sermod.Serializable):
+            v: int = 0
+
+        class MsgS(sermod.Serializable):
+            v: int = 0
+        cache[key] = (MsgR, MsgS)
+    MsgR, MsgS = cache[key]
+    deco = mod.server_event if server else mod.client_event
+    calls = []
+    the_exc = exc_type('raised by the handler itself')
+    if server:
+        if by_string:
+            class RR:
+                @deco
+                def on_r(self, client, seqnum, msg: "MsgR"):
+                    calls.append(msg)
+                    raise the_exc
+        else:
+            class RR:
+                @deco
+                def on_r(self, client, seqnum, msg: MsgR):
+                    calls.append(msg)
+                    raise the_exc
+    else:
+        if by_string:
+            class RR:
+                @deco
+                def on_r(self, seqnum, msg: "MsgR"):
+                    calls.append(msg)
+                    raise the_exc
+        else:
+            class RR:
+                @deco
+                def on_r(self, seqnum, msg: MsgR):
+                    calls.append(msg)
+                    raise the_exc
+    D = mod.ServerMessageDispatcher if server else mod.ClientMessageDispatcher
+    d = D()
+    d.register(RR())
+    return d, MsgR, MsgS, calls, the_exc
+
+
+def _l203_run(mod, sermod, server, exc_idx, by_string):
+    d, MsgR, MsgS, calls, the_exc = _raising_world(mod, sermod, server, EXC_TYPES[exc_idx], by_string)
+    out = []
+    for cls in (MsgR, MsgS):
+        n0 = len(calls)
+        try:
+            if server:
+                d.dispatch(object(), 1, cls(v=1))
+            else:
+                d.dispatch(1, cls(v=1))
+            got = None
+        except BaseException as e:      # noqa: B036 - the harness inspects what came out
+            if not isinstance(e, Exception):
+                raise
+            got = e
+        out.append((got, len(calls) - n0))
+    return out, the_exc, mod.DispatchError
+
+
+def l203(server):
+    """the registered handler itself raises (a KeyError from its own table, say): dispatch invoked exactly that handler, and
+    what comes out is the handler's exception - DispatchError means 'no handler registered, nothing called' and nothing else"""
+    k = choose(len(EXC_TYPES), 'exc_type')
+    by_string = bool(symbool('string_annotation'))
+    out, the_exc, DE = _l203_run(disp, ser, server, k, by_string)
+    (got_r, n_r), (got_s, n_s) = out
+    check(n_r == 1, 'the registered handler is invoked exactly once even if it raises')
+    check(got_r is the_exc, "a handler's own exception comes out of dispatch unchanged (DispatchError only when nothing was called)")
+    check(isinstance(got_s, DE) and n_s == 0, 'unknown class raises DispatchError and nothing is called')
+
+
+def replay_l203(cfg, m):
+    c = real('mpgameserver.dispatch')
+    s = real('mpgameserver.serializable')
+    out, the_exc, DE = _l203_run(c, s, cfg['server'], m.get('exc_type', 0), bool(m.get('string_annotation', 0)))
+    (got_r, n_r), (got_s, n_s) = out
+    bad = n_r != 1 or got_r is not the_exc or not isinstance(got_s, DE) or n_s != 0
+    return bad, 'handler raising %s: dispatch raised %r after %d call(s); unknown class: %r after %d call(s)' % (
+        EXC_TYPES[m.get('exc_type', 0)].__name__, got_r, n_r, got_s, n_s)
+
+
+R.add('L20.3', l203, [dict(server=True), dict(server=False)], replay=replay_l203,
+      desc='a registered handler that raises (7 exception types, class and string annotations): invoked once, its own exception comes out; '
+           'DispatchError only for an unregistered class',
+      expect=["a handler's own exception comes out of dispatch unchanged (DispatchError only when nothing was called)"],
+      bounds='7 exception types x 2 annotation styles x 2 dispatchers (finite, enumerated)')
+
+for _lid in ['L20.1', 'L20.2', 'L20.3']:
     if _lid in R.lemmas:
         R.lemmas[_lid].api = True
 
